@@ -157,6 +157,9 @@ def run(ctx):
                 "(Error diagnostics), real run (tick limit 40000), m8_check, m8_run. Non-trivial = the program "
                 "is a mutant, or an accepted program whose run executed at least one function call and printed "
                 "or raised something." % (len(TG.MUTATIONS), ", ".join(TG.MUTATIONS)))
+    # replay of the recorded finding C16/error-from-checked-list, first in every run (known_findings.json)
+    progs.insert(0, ("fun f(): Int {\n  let s = 0\n  for x in [(None, 1), (Some(2), 1)] {\n    s += x\n  }\n  s\n}\n"
+                     "println(string_repr(f()))\n", None))
     srcs = [s for s, _ in progs]
     chk = ctx.garden_batch(["check " + hexs(s) for s in srcs], timeout=900)
     ast = ctx.garden_batch(["astx " + hexs(s) for s in srcs], timeout=900)
